@@ -42,19 +42,20 @@ logging.disable(logging.CRITICAL)
 
 def plan(tier):
     q = tier == "quick"
-    return [{"name": "main", "examples": 1500 if q else 150000}]
+    return [{"name": "main", "examples": 1500 if q else 60000}]
 
 
 CMD = st.one_of(
-    st.tuples(st.just("SPAWN"), st.sampled_from(["k1", "k2", "k3"]), st.sampled_from([None, None, "sysA", "sysB"])).map(list),
+    st.tuples(st.just("SPAWN"), st.sampled_from(["k1", "k2", "k3", "k11"]), st.sampled_from([None, None, "sysA", "sysB"])).map(list),
     st.tuples(st.just("SPAWN_AUTO")).map(list),
-    st.tuples(st.just("SEND"), st.sampled_from(["par:k1", "par:k2", "k1", "k2", "k3", "sysA", "sysB", "kid", "nobody"])).map(list),
-    st.tuples(st.just("SEND"), st.sampled_from(["par:k1", "par:k2", "k1", "k2", "k3", "sysA", "sysB", "kid", "nobody"])).map(list),
+    st.tuples(st.just("SEND"), st.sampled_from(["par:k1", "par:k2", "k1", "k2", "k3", "sysA", "sysB", "kid", "nobody", "k", "k11", "k1", "sys"])).map(list),
+    st.tuples(st.just("SEND"), st.sampled_from(["par:k1", "par:k2", "k1", "k2", "k3", "sysA", "sysB", "kid", "nobody", "k", "k11", "k1", "ki"])).map(list),
     st.tuples(st.just("DSEND"), st.sampled_from(["k1", "k2", "sysA"]), st.sampled_from([20, 50]), st.sampled_from(["d1", "d2"])).map(list),
     st.tuples(st.just("CANCEL"), st.sampled_from(["d1", "d2", "d9"])).map(list),
     st.tuples(st.just("FWD"), st.sampled_from(["k1", "k2", "sysA"])).map(list),
     st.tuples(st.just("STOPC"), st.sampled_from(["k1", "k2", "k3", "sysA", "nobody"])).map(list),
     st.tuples(st.just("ECHO"), st.sampled_from(["k1", "k2"])).map(list),
+    st.tuples(st.just("DECHO"), st.sampled_from(["k1", "k2"]), st.sampled_from([20, 50])).map(list),
     st.tuples(st.just("GRAND"), st.sampled_from(["k1", "k2"]), st.sampled_from([None, None, "sysG1", "sysG2"])).map(list),
     st.tuples(st.just("GSTOP"), st.sampled_from(["k1", "k2"])).map(list),
     st.tuples(st.just("ADV"), st.sampled_from([10, 30, 60])).map(list),
@@ -82,6 +83,8 @@ def machines():
         "MSG": {"actions": ["inbox"]},
         "FWDMSG": {"actions": ["inbox"]},
         "ECHO": {"actions": [{"type": "xstate.sendParent", "params": lambda a: {"event": {"type": "FROMKID", "seq": a["event"].payload.get("seq")}}}]},
+        "DECHO": {"actions": [{"type": "xstate.sendParent", "params": lambda a: {"event": {"type": "FROMKID", "seq": a["event"].payload.get("seq")},
+                                                                                  "delay": a["event"].payload.get("delay")}}]},
         "GRAND": {"actions": [{"type": "xstate.spawnChild", "params": lambda a: {"src": "grand", "id": "g", "systemId": a["event"].payload.get("gsys")}}]},
         "GSTOP": {"actions": [{"type": "xstate.stopChild", "params": {"id": "g"}}]},
         "FIN": "fin",
@@ -102,6 +105,7 @@ def machines():
         "ECHO": {"actions": [{"type": "xstate.sendTo", "params": lambda a: {"to": a["event"].payload.get("to"), "event": {"type": "ECHO", "seq": a["event"].payload.get("seq")}}}]},
         "GRAND": {"actions": [{"type": "xstate.sendTo", "params": lambda a: {"to": a["event"].payload.get("to"), "event": {"type": "GRAND", "gsys": a["event"].payload.get("gsys")}}}]},
         "GSTOP": {"actions": [{"type": "xstate.sendTo", "params": lambda a: {"to": a["event"].payload.get("to"), "event": {"type": "GSTOP"}}}]},
+        "DECHO": {"actions": [{"type": "xstate.sendTo", "params": lambda a: {"to": a["event"].payload.get("to"), "event": {"type": "DECHO", "seq": a["event"].payload.get("seq"), "delay": a["event"].payload.get("delay")}}}]},
         "KFIN": {"actions": [{"type": "xstate.sendTo", "params": lambda a: {"to": a["event"].payload.get("to"), "event": {"type": "FIN"}}}]},
         "SPAWN_BLOCK": {"actions": [{"type": "spawn_blocking_kid", "params": {"id": "z"}}]},
         "FROMKID": {"actions": ["fromkid"]},
@@ -124,6 +128,7 @@ class Model:
         self.fromkid = []
         self.n_auto = 0
         self.gen = 0
+        self.pending_echo = []   # (due_ms, child id, seq, generation of the child)
 
     def alive(self):
         return [a for a in self.order if self.actors[a]["alive"]]
@@ -185,6 +190,8 @@ def _payload(cmd, seq, model):
         return "GRAND", {"to": cmd[1], "gsys": cmd[2] if len(cmd) > 2 else None, "seq": seq}
     if k == "GSTOP":
         return "GSTOP", {"to": cmd[1], "seq": seq}
+    if k == "DECHO":
+        return "DECHO", {"to": cmd[1], "delay": cmd[2], "seq": seq}
     raise ValueError(k)
 
 
@@ -369,6 +376,12 @@ def check_case(case) -> CaseResult:
             tgt, how = m.resolve(cmd[1])
             if tgt is not None:
                 m.fromkid.append(i)
+        elif k == "DECHO":
+            tgt, how = m.resolve(cmd[1])
+            if tgt is not None:
+                # the child schedules a delayed sendParent (no send id); a stopped child emits nothing
+                m.pending_echo.append((m.now + cmd[2], tgt, i, m.actors[tgt]["gen"]))
+                nontrivial = True
         elif k == "GRAND":
             tgt, how = m.resolve(cmd[1])
             gsys = cmd[2] if len(cmd) > 2 else None
@@ -409,6 +422,12 @@ def check_case(case) -> CaseResult:
                 elif m.actors[tgt]["alive"]:
                     m.actors[tgt]["inbox"].append(seq)
                 del m.pending[sid]
+        for ent in sorted(m.pending_echo, key=lambda e_: e_[0]):
+            due, tgt, seq, gen = ent
+            if due <= m.now:
+                if m.actors[tgt]["alive"] and m.actors[tgt]["gen"] == gen:
+                    m.fromkid.append(seq)
+                m.pending_echo.remove(ent)
         if stale_target:
             judged = False
             left = "unjudged"
